@@ -308,6 +308,15 @@ def C06_5(ctx, facts):
     ctx.floor("token-literals", n, 8, "struct literals with a token field")
 
 
+import witness
+
+
+def W(ctx):
+    witness.run(ctx, {"W4": "pool::Token is not nameable outside the crate (tokens cannot be minted by users)"})
+
+
+THOROUGH_RULES = [("W", W)]
+
 RULES = [
     ("C06.1", C06_1, ["default"]),
     ("C06.2", C06_2, ["default"]),
